@@ -150,6 +150,7 @@ package secec
 //@   fresh result0
 //@
 //@ func (*PrivateKey).PublicKey
+//@   ct
 //@   props C10 C18 C05
 //@   ensures result == k.publicKey
 //@
@@ -406,16 +407,19 @@ package secec
 //@   ensures os2ip(result.(*drbgRFC6979).v) == hmac_v(hmac_voxh(hmac_voxh(0, drbg_v0(), 0, lift(val(x)), lift(val(e))), hmac_v(hmac_voxh(0, drbg_v0(), 0, lift(val(x)), lift(val(e))), drbg_v0()), 1, lift(val(x)), lift(val(e))), hmac_v(hmac_voxh(0, drbg_v0(), 0, lift(val(x)), lift(val(e))), drbg_v0()))
 //@
 //@ func (*PrivateKey).Equal
+//@   ct
 //@   props C10 C18
 //@   split dyn x PrivateKey
 //@   ensures isdyn(x, PrivateKey) ==> (result <==> val(k.scalar) == val(x.(*PrivateKey).scalar))
 //@   ensures !isdyn(x, PrivateKey) ==> !result
 //@
 //@ func (*PrivateKey).Public
+//@   ct
 //@   props C10 C18
 //@   ensures isdyn(result, PublicKey)
 //@
 //@ func GenerateKey
+//@   ct
 //@   props C10 C18 C05
 //@   split case result1 == nil
 //@   ensures result1 == nil ==> lift(val(result0.scalar)) == sampv(old(rdstate(osrand())), 8) && fresh(result0.scalar)
